@@ -438,3 +438,37 @@ def run(ctx):
     packing(ctx)
     block_matvec(ctx)
     gf_algebra(ctx)
+    space_hash(ctx)
+
+
+def space_hash(ctx):
+    """Space compatibility is decided by a hash: it must cover every table the assemblers read from a space."""
+    SPC = "bempp_cl/api/space/space.py"
+    m = ctx.repo.mod(SPC)
+    r = ctx.rule("HASH-COVERS", "FunctionSpace._generate_hash digests every table assemblers read from a space (dof maps, support, both multiplier tables, dof transformation) plus shapeset identifier and grid id; == compares those hashes on compatible representations", 3)
+    fn = m.fn("FunctionSpace._generate_hash")
+    defs = roles.Defs(fn)
+    S = roles.stores(fn.body, defs, lv=False)
+    gens = {s.tnode.id for s in S if s.op == "=" and isinstance(s.tnode, ast.Name) and isinstance(s.vnode, ast.Call) and unparse(s.vnode.func).split(".")[-1] == "md5"}
+    fed = set()
+    for s in S:
+        if s.op == "call" and isinstance(s.vnode.func, ast.Attribute) and s.vnode.func.attr == "update" and isinstance(s.vnode.func.value, ast.Name) and s.vnode.func.value.id in gens and not s.guards and not s.loops:
+            fed.add(roles.canon(s.vnode.args[0], defs).replace(" ", ""))
+    T = "self.dof_transformation.tocsr().sorted_indices()"
+    need = {"self.local2global.tobytes()", "self.support_elements.tobytes()", "self.normal_multipliers.tobytes()", "self.local_multipliers.tobytes()", T + ".indices", T + ".indptr", T + ".data"}
+    missing = sorted(need - fed)
+    r.check(not missing, "digested tables", SPC, fn.name, fn.lineno, "space hash misses %s" % missing, "tables not covered by the hash (two spaces differing only there would compare equal): %s" % missing)
+    rets = [s for s in S if s.op == "return"]
+    okr = len(rets) == 1 and gens and all(x in rets[0].value for x in ("self.identifier", "self.grid_id")) and any("%s.hexdigest()" % g in rets[0].value for g in gens)
+    r.check(okr, "hash value", SPC, fn.name, fn.lineno, "space hash value", "the hash is `%s`: it must combine the shapeset identifier, the grid id and the digest" % (rets[0].value if rets else None))
+    cf = m.fn("check_if_compatible")
+    dc = roles.Defs(cf)
+    pc = arg_names(cf)
+    Sc = roles.stores(cf.body, dc, lv=False)
+    rc = [s for s in Sc if s.op == "return"]
+    rep = "return_compatible_representation(%s,%s)" % (pc[0], pc[1])
+    cmp_ok = any(s.value.replace(" ", "") in ("(%s[0].hashEq%s[1].hash)" % (rep, rep), "(%s[1].hashEq%s[0].hash)" % (rep, rep)) for s in rc)
+    eqf = m.fn("FunctionSpace.__eq__")
+    re_ = [s for s in roles.stores(eqf.body, roles.Defs(eqf), lv=False) if s.op == "return"]
+    eq_ok = len(re_) == 1 and re_[0].value.replace(" ", "") == "check_if_compatible(self,%s)" % arg_names(eqf)[1]
+    r.check(cmp_ok and eq_ok, "equality by hash", SPC, cf.name, cf.lineno, "space equality", "== does not compare the hashes of the compatible representations (compare ok=%s, __eq__ forwards ok=%s)" % (cmp_ok, eq_ok))
